@@ -218,7 +218,7 @@ def history_runs(ctx, tmp, cfgs, K, table, ref_hs):
 
     def one(item):
         ci, idxs = item
-        return spawn({"job": "history", "prelude": prelude, "configs": [cfgs[i] for i in idxs], "K": K}, tmp, "hi_%d" % ci, str(3 + ci))
+        return spawn({"job": "history", "prelude": prelude, "configs": [cfgs[i] for i in idxs], "K": K}, tmp, "hi_%d" % ci, ref_hs)
     outs = pmap(one, list(enumerate(chunks)))
     ndiff = 0
     n = 0
